@@ -50,7 +50,7 @@ INFO = {
         'seeded schedules of writers / readers / one packer at seam-call granularity, acked-history oracle; a run is '
         'non-trivial if some reader seam call fell between a packer COMMIT and the end of its unlink loop or a reader '
         'took the re-query fallback; distinct = distinct schedule digest',
-        700,
+        4000,
     ),
     'C05': _p(
         'fault_enumeration',
@@ -58,13 +58,13 @@ INFO = {
         'boundaries before mutating seam calls of the victim (all in thorough, seeded sample in quick); evaluations = '
         'images verified; non-trivial = boundary strictly inside the victim; distinct = distinct (victim kind, seam call '
         'kind at the boundary, image state digest)',
-        260,
+        1200,
     ),
     'C06': _p(
         'fault_enumeration',
         'as C05 with default fsync settings and the adversarial power-loss image (every regular data file cut back to '
         'the bytes its inode held at its last fsync); evaluations = images verified',
-        260,
+        1200,
     ),
     'C07': _p(
         'exploration',
@@ -77,7 +77,7 @@ INFO = {
         'exploration',
         'sequential histories over 2-4 handles on one folder, every handle queried after every step; non-trivial = '
         'some handle queried before another handle packed/cleaned; distinct = distinct history digest',
-        700,
+        2500,
     ),
     'C09': _p('exploration', 'recurrence-biased histories, dedup / no_holes accounting: ' + HIST_RULE, 900),
     'C10': _p('exploration', 'chained compression modes, affected-row diff: ' + HIST_RULE, 800),
@@ -109,7 +109,7 @@ INFO = {
         'one injected I/O fault (EIO, ENOSPC after partial write, lost close, EPERM, SQL OperationalError) at the k-th '
         'seam call of a victim operation; evaluations = fault positions executed; non-trivial = the fault actually fired '
         'inside the victim; distinct = distinct (victim, call kind, fault kind, outcome) digest',
-        200,
+        400,
     ),
     'C18': _p(
         'exploration',
